@@ -31,18 +31,42 @@ Proof.
   destruct (H i x E) as (x' & -> & L). apply L.
 Qed.
 
+(* the instance was launched at least once (observer side; monotone) *)
+Definition lo (o : obs) (i : iid) : Prop := 0 < o_launches (oi_get o i).
+Lemma lo_le o o' i : obs_le o o' -> lo o i -> lo o' i.
+Proof.
+  unfold lo, oi_get. intros H. destruct (get i (oi o)) as [x|] eqn:E; [|cbn; lia].
+  destruct (H i x E) as (x' & -> & L). destruct L as (_ & _ & _ & _ & _ & L). lia.
+Qed.
+(* the instance exists and its creation write (stage 0 -> 1 of runProcess) is behind it *)
+Definition Q0 (s : sys) (j : iid) : Prop := forall t, get j (stage s) <> Some (t, 0).
+Definition has_inst (s : sys) (j : iid) : Prop := get j (insts s) <> None /\ Q0 s j.
+
+Lemma flush_stage th s : stage (flush th s) = stage s.
+Proof.
+  unfold flush. destruct (get th (threads s)) as [t|]; [|reflexivity]. destruct (pend t) as [r|]; [|reflexivity].
+  destruct r; unfold apply_release, end_release_early, upd_inst; cbn;
+    repeat match goal with |- context[match ?x with _ => _ end] => destruct x; cbn end; reflexivity.
+Qed.
+Lemma has_flush th s j : has_inst s j -> has_inst (flush th s) j.
+Proof.
+  intros [H Q]. split; [|unfold Q0; now rewrite flush_stage].
+  pose proof (flush_insts th s j) as F. destruct (get j (insts s)); [|congruence]. destruct F as (x' & -> & _). discriminate.
+Qed.
+
 Section RtDefs.
 Context (cs : amap pconf).
 
 (* thread-level facts: whoever is about to stop an instance has already made the observer record the request *)
 Record Rt (s : sys) (o : obs) : Prop := mkRt {
-  rt_run : forall p, In p (running s) -> get (snd p) (insts s) <> None;
-  rt_reg : forall th n i, last_reg (get_thread s th) = Some (n, Some i) -> get i (insts s) <> None;
+  rt_run : forall p, In p (running s) -> has_inst s (snd p);
+  rt_reg : forall th n i, last_reg (get_thread s th) = Some (n, Some i) -> has_inst s i;
   rt_apc : forall th i, (apc (get_thread s th) = AStopping i \/ exists n, apc (get_thread s th) = ARestartStopping n i) ->
-           get i (insts s) <> None;
+           has_inst s i;
   rt_sd : forall t order i, sd_active s = Some (t, order) -> memN i order = true -> sreq o i;
   rt_loop : forall th order rest i, dpc (get_thread s th) = DLoop order rest -> memN i rest = true -> sreq o i;
-  rt_ready : forall th i, spc (get_thread s th) = SReady i true -> sreq o i;
+  rt_ready : forall th i c, spc (get_thread s th) = SReady i c -> if c then sreq o i else lo o i;
+  rt_ent : forall th i c, spc (get_thread s th) = SEntered i c -> if c then sreq o i else lo o i;
   rt_spend : forall th i, spc (get_thread s th) = SPend i -> sreq o i;
   rt_pend : forall th i, (pend (get_thread s th) = Some (RRunCtx i) -> sreq o i) /\
                          (pend (get_thread s th) = Some (REndEarly i) -> sreq o i \/ o_endst (oi_get o i) <> None)
@@ -56,9 +80,11 @@ Qed.
 
 Lemma Rt_obs_le s o o' : Rt s o -> obs_le o o' -> Rt s o'.
 Proof.
-  intros [H1 Ha Hb H2 H3 H4 H5 H6] L. constructor; eauto using sreq_le.
-  intros th i. destruct (H6 th i) as [A B]. split; [eauto using sreq_le|].
-  intros E. destruct (B E); [left|right]; eauto using sreq_le, endst_le.
+  intros [H1 Ha Hb H2 H3 H4 He H5 H6] L. constructor; eauto using sreq_le.
+  - intros th i c Hq. specialize (H4 th i c Hq). destruct c; eauto using sreq_le, lo_le.
+  - intros th i c Hq. specialize (He th i c Hq). destruct c; eauto using sreq_le, lo_le.
+  - intros th i. destruct (H6 th i) as [A B]. split; [eauto using sreq_le|].
+    intros E. destruct (B E); [left|right]; eauto using sreq_le, endst_le.
 Qed.
 
 (* flush: the thread's pending release disappears, the rest of the thread records is untouched *)
@@ -83,19 +109,16 @@ Qed.
 
 Lemma Rt_flush th s o : Rt s o -> Rt (flush th s) o.
 Proof.
-  intros [H1 Ha Hb H2 H3 H4 H5 H6]. constructor.
-  - intros p Hp. rewrite flush_running in Hp. specialize (H1 p Hp).
-    pose proof (flush_insts th s (snd p)) as F. destruct (get (snd p) (insts s)); [|congruence].
-    destruct F as (x' & -> & _). discriminate.
-  - intros th' n i Hq. assert (Hx : get i (insts s) <> None).
-    { destruct (flush_get_thread th s th') as [E|[-> E]]; rewrite E in Hq; cbn in Hq; eapply Ha; eauto. }
-    pose proof (flush_insts th s i) as F. destruct (get i (insts s)); [|congruence]. destruct F as (x' & -> & _). discriminate.
-  - intros th' i Hq. assert (Hx : get i (insts s) <> None).
-    { destruct (flush_get_thread th s th') as [E|[-> E]]; rewrite E in Hq; cbn in Hq; eapply Hb; eauto. }
-    pose proof (flush_insts th s i) as F. destruct (get i (insts s)); [|congruence]. destruct F as (x' & -> & _). discriminate.
+  intros [H1 Ha Hb H2 H3 H4 He H5 H6]. constructor.
+  - intros p Hp. rewrite flush_running in Hp. apply has_flush, H1, Hp.
+  - intros th' n i Hq. apply has_flush.
+    destruct (flush_get_thread th s th') as [E|[-> E]]; rewrite E in Hq; cbn in Hq; eapply Ha; eauto.
+  - intros th' i Hq. apply has_flush.
+    destruct (flush_get_thread th s th') as [E|[-> E]]; rewrite E in Hq; cbn in Hq; eapply Hb; eauto.
   - intros t order i. rewrite flush_sd_active. apply H2.
   - intros th' order rest i. destruct (flush_get_thread th s th') as [->|[-> ->]]; cbn; apply H3.
-  - intros th' i. destruct (flush_get_thread th s th') as [->|[-> ->]]; cbn; apply H4.
+  - intros th' i c. destruct (flush_get_thread th s th') as [->|[-> ->]]; cbn; apply H4.
+  - intros th' i c. destruct (flush_get_thread th s th') as [->|[-> ->]]; cbn; apply He.
   - intros th' i. destruct (flush_get_thread th s th') as [->|[-> ->]]; cbn; apply H5.
   - intros th' i. destruct (flush_get_thread th s th') as [->|[-> ->]]; cbn; [apply H6|split; discriminate].
 Qed.
@@ -140,29 +163,47 @@ Qed.
 End RtDefs.
 
 (* ---- instances never disappear ----------------------------------------------------------------------- *)
-Definition has_inst (s : sys) (j : iid) : Prop := get j (insts s) <> None.
+Lemma upd_inst_stage i f s : stage (upd_inst i f s) = stage s. Proof. unfold upd_inst. destruct (get i (insts s)); reflexivity. Qed.
+Lemma upd_vis_stage n f s : stage (upd_vis n f s) = stage s. Proof. unfold upd_vis. destruct (get n (viss s)); reflexivity. Qed.
+Lemma write_status_stage n s0 s : stage (write_status n s0 s) = stage s. Proof. unfold write_status. apply upd_vis_stage. Qed.
+Lemma fold_upd_inst_stage (f : inst -> inst) l s : stage (fold_left (fun s i => upd_inst i f s) l s) = stage s.
+Proof. apply (fold_upd_inst_proj stage). intros. apply upd_inst_stage. Qed.
+#[export] Hint Rewrite upd_inst_stage upd_vis_stage write_status_stage fold_upd_inst_stage : sup.
+
 Lemma has_upd_inst i f s j : has_inst s j -> has_inst (upd_inst i f s) j.
-Proof. unfold has_inst. rewrite insts_upd_inst. destruct (N.eqb i j); [|auto]. destruct (get j (insts s)); cbn; congruence. Qed.
+Proof.
+  unfold has_inst, Q0. rewrite insts_upd_inst, upd_inst_stage. intros [H Q]. split; [|exact Q].
+  destruct (N.eqb i j); [|auto]. destruct (get j (insts s)); cbn; congruence.
+Qed.
 Lemma has_upd_vis n f s j : has_inst s j -> has_inst (upd_vis n f s) j.
-Proof. unfold has_inst. now rewrite upd_vis_insts. Qed.
+Proof. unfold has_inst, Q0. now rewrite upd_vis_insts, upd_vis_stage. Qed.
 Lemma has_write_status n s0 s j : has_inst s j -> has_inst (write_status n s0 s) j.
-Proof. unfold has_inst. now rewrite write_status_insts. Qed.
+Proof. unfold has_inst, Q0. now rewrite write_status_insts, write_status_stage. Qed.
 Lemma has_set_thread th t s j : has_inst s j -> has_inst (set_thread th t s) j.
 Proof. auto. Qed.
 Lemma has_fold_upd_inst (f : inst -> inst) l j : forall s, has_inst s j -> has_inst (fold_left (fun s i => upd_inst i f s) l s) j.
 Proof. induction l as [|a l IH]; intros s H; cbn; [exact H|]. apply IH, has_upd_inst, H. Qed.
-Lemma has_same_insts s s' j : insts s' = insts s -> has_inst s j -> has_inst s' j.
-Proof. unfold has_inst. now intros ->. Qed.
+Lemma has_same_insts s s' j : insts s' = insts s -> stage s' = stage s -> has_inst s j -> has_inst s' j.
+Proof. unfold has_inst, Q0. now intros -> ->. Qed.
+(* the creation stage of an existing instance moves on to k >= 1 *)
+Lemma has_set_stage th i k s j : k <> 0 -> has_inst s j -> has_inst (s <| stage := set i (th, k) (stage s) |>) j.
+Proof.
+  intros Hk [H Q]. split; [exact H|]. intros t. cbn. rewrite get_set. destruct (N.eqb i j); [congruence|apply Q].
+Qed.
+
+Lemma has_set_stage2 th i k X st0 j : k <> 0 -> st0 = stage X -> has_inst X j -> has_inst (X <| stage := set i (th, k) st0 |>) j.
+Proof. intros Hk -> H. now apply has_set_stage. Qed.
 
 Ltac has_tac :=
   unfold set_pc, end_finish, end_release_early;
   repeat first
   [ assumption
+  | apply has_set_stage2; [discriminate|unfold set_pc, end_finish, end_release_early; autorewrite with sup; reflexivity|]
   | apply has_upd_inst | apply has_upd_vis | apply has_write_status | apply has_set_thread | apply has_fold_upd_inst
   | match goal with
     | |- has_inst (if ?b then _ else _) _ => destruct b
     | |- has_inst (match ?b with _ => _ end) _ => destruct b
-    | |- has_inst (RecordSet.set _ _ ?X) _ => apply (has_same_insts X); [reflexivity|]
+    | |- has_inst (RecordSet.set _ _ ?X) _ => apply (has_same_insts X); [reflexivity|reflexivity|]
     end ].
 
 Lemma in_set_inv {A} k (v : A) m p : In p (set k v m) -> p = (k, v) \/ In p m.
@@ -180,6 +221,7 @@ Definition ev_facts (o' : obs) (e : event) : Prop :=
   | ENoRestart i | EStopPending i => sreq o' i
   | EShutdownOrder order => forall i, memN i order = true -> sreq o' i
   | EProcEnd i _ => o_endst (oi_get o' i) <> None
+  | EProbe i _ true => lo o' i
   | _ => True
   end.
 
@@ -197,7 +239,7 @@ Ltac rt_pre :=
   | |- Rt ?S _ => match S with context[if ?b then _ else _] => destruct b eqn:? end
   end.
 Ltac rt_norm := unfold set_pc, end_finish, end_release_early.
-Ltac rt_direct H1 Ha Hb H2 H3 H4 H5 H6 Hh :=
+Ltac rt_direct H1 Ha Hb H2 H3 H4 He H5 H6 Hh :=
   constructor;
   [ let p0 := fresh "p" in let Hp0 := fresh "Hp" in
     intros p0 Hp0; unfold set_pc, end_finish, end_release_early in Hp0; autorewrite with sup in Hp0; cbn in Hp0; autorewrite with sup in Hp0; try (apply Hh, H1, Hp0)
@@ -209,8 +251,10 @@ Ltac rt_direct H1 Ha Hb H2 H3 H4 H5 H6 Hh :=
     intros t0 order0 i0; rt_norm; autorewrite with sup; cbn; try apply H2; try discriminate
   | let th0 := fresh "th" in let order0 := fresh "order" in let rest0 := fresh "rest" in let i0 := fresh "i" in
     intros th0 order0 rest0 i0; rt_norm; rt_thread th0; try apply H3; try discriminate
-  | let th0 := fresh "th" in let i0 := fresh "i" in
-    intros th0 i0; rt_norm; rt_thread th0; try apply H4; try discriminate
+  | let th0 := fresh "th" in let i0 := fresh "i" in let c0 := fresh "c" in
+    intros th0 i0 c0; rt_norm; rt_thread th0; try apply H4; try discriminate
+  | let th0 := fresh "th" in let i0 := fresh "i" in let c0 := fresh "c" in
+    intros th0 i0 c0; rt_norm; rt_thread th0; try apply He; try discriminate
   | let th0 := fresh "th" in let i0 := fresh "i" in
     intros th0 i0; rt_norm; rt_thread th0; try apply H5; try discriminate
   | let th0 := fresh "th" in let i0 := fresh "i" in
@@ -269,8 +313,10 @@ Record P2 (s : sys) (o : obs) (x : inst) (xo : oinst) : Prop := mkP2 {
   p_runctx : l_runctx x = true -> o_stopreq xo = true \/ inend_pc (pc x) = true;
   p_endst : o_endst xo <> None -> o_stopreq xo = true \/ inend_pc (pc x) = true;
   p_gone : o_gone xo = true -> gone_pc (pc x) = true;
-  p_nostop : W4 o = false -> o_stopreq xo = true -> predec_pc (pc x) = true -> f_stopped x = true;
-  p_status : W4 o = false -> launched_pc (pc x) = true -> st (vis_of s (nm x)) <> SPending
+  p_nostop : W3 o = false -> o_stopreq xo = true -> predec_pc (pc x) = true -> f_stopped x = true;
+  p_status : W3 o = false -> launched_pc (pc x) = true -> st (vis_of s (nm x)) <> SPending;
+  p_s1 : forall s1 c, (pc x = IEnding s1 c \/ exists b, pc x = IInEnd s1 c b) -> s1 <> SPending;
+  p_endst2 : W3 o = false -> o_endst xo <> None -> launched_pc (pc x) = false
 }.
 
 Definition P2all (s : sys) (o : obs) : Prop :=
@@ -286,7 +332,7 @@ Definition okeep (xo xo' : oinst) : Prop :=
 Definition vkeep (s s' : sys) (x : inst) : Prop :=
   restarts (vis_of s (nm x)) <= restarts (vis_of s' (nm x)) /\
   (st (vis_of s' (nm x)) = SPending -> st (vis_of s (nm x)) = SPending \/ launched_pc (pc x) = false).
-Definition wkeep (o o' : obs) : Prop := (W2 o' = false -> W2 o = false) /\ (W4 o' = false -> W4 o = false).
+Definition wkeep (o o' : obs) : Prop := (W2 o' = false -> W2 o = false) /\ (W3 o' = false -> W3 o = false).
 
 Lemma ikeep_refl x : ikeep x x. Proof. unfold ikeep; repeat split. Qed.
 Lemma okeep_refl x : okeep x x. Proof. unfold okeep; repeat split. Qed.
@@ -296,7 +342,7 @@ Lemma wkeep_step cs o e : wkeep o (obs_step cs o e).
 Proof.
   split; intros H.
   - destruct (W2 o) eqn:E; [|reflexivity]. now rewrite (W2_mono cs o e E) in H.
-  - destruct (W4 o) eqn:E; [|reflexivity]. now rewrite (W4_mono cs o e E) in H.
+  - destruct (W3 o) eqn:E; [|reflexivity]. now rewrite (W3_mono cs o e E) in H.
 Qed.
 
 Lemma P2_frame s o x xo s' o' x' xo' :
@@ -403,71 +449,125 @@ Proof.
   try (apply oback_refl; rel_side); oback_close ole_side.
 Qed.
 
-(* ---- Rd: outside the dup/zombie windows, of two instances of a name one has ended and left ------------ *)
-Definition Rd (o : obs) : Prop :=
-  w_dup o = false -> w_zombie o = false ->
-  forall i j xi xj, i <> j -> get i (oi o) = Some xi -> get j (oi o) = Some xj -> o_nm xi = o_nm xj ->
-  (o_ended xi = true /\ o_gone xi = true) \/ (o_ended xj = true /\ o_gone xj = true).
+(* ---- Ro (observer only): without a dup, of two instances of a name one has ended ---------------------------- *)
+Record Ro (o : obs) : Prop := mkRo {
+  ro_pair : w_dup o = false -> forall i j xi xj, i <> j -> get i (oi o) = Some xi -> get j (oi o) = Some xj ->
+            o_nm xi = o_nm xj -> o_ended xi = true \/ o_ended xj = true;
+  ro_end : forall i xi, get i (oi o) = Some xi -> o_ended xi = true -> o_endst xi <> None
+}.
 
-Lemma Rd_init cs : Rd (obs0 cs).
-Proof. intros _ _ i j xi xj _ H. discriminate H. Qed.
+Lemma Ro_init cs : Ro (obs0 cs).
+Proof. constructor; cbn; intros; discriminate. Qed.
 
-Lemma dupz_mono cs o e : w_dup (obs_step cs o e) = false -> w_zombie (obs_step cs o e) = false ->
-  w_dup o = false /\ w_zombie o = false.
+Definition oinst_le2 (x x' : oinst) : Prop :=
+  oinst_le x x' /\ ((o_ended x = true -> o_endst x <> None) -> (o_ended x' = true -> o_endst x' <> None)).
+Lemma oinst_le2_refl x : oinst_le2 x x.
+Proof. unfold oinst_le2. repeat split; auto using oinst_le_refl. Qed.
+Lemma oinst_le2_trans x y z : oinst_le2 x y -> oinst_le2 y z -> oinst_le2 x z.
+Proof.
+  unfold oinst_le2. intros (A1 & A3) (B1 & B3).
+  split; [eapply oinst_le_trans; eauto|intros H; apply B3, A3, H].
+Qed.
+Lemma oinst_le2_succ x : oinst_le2 x (x <| o_succ := true |>).
+Proof. unfold oinst_le2. repeat split; auto using oinst_le_succ. Qed.
+
+Ltac ole2_side :=
+  intros; unfold oinst_le2; split; [oinst_le_tac|];
+  cbn; repeat match goal with |- context[if ?b then _ else _] => destruct b eqn:?; cbn end; auto; try discriminate;
+  try (intros; match goal with E : opt_eqb status_eqb (o_endst ?x) _ = true |- _ => destruct (o_endst x); [discriminate|discriminate E] end).
+Ltac rel2_side := first [exact oinst_le2_trans | exact oinst_le2_refl | exact oinst_le2_succ].
+Ltac oback_close2 :=
+  repeat first
+  [ apply oback_refl; rel2_side
+  | match goal with
+    | |- oback ?R ?o (oi_upd ?i ?f ?X) =>
+        apply (oback_trans R ltac:(rel2_side) o X); [|apply oback_oi_upd; ole2_side]
+    | |- oback ?R ?o (on_upd ?n ?f ?X) =>
+        apply (oback_trans R ltac:(rel2_side) o X); [|apply oback_on_upd; rel2_side]
+    | |- oback ?R ?o (fold_left (fun o i => oi_upd i ?f o) ?l ?X) =>
+        apply (oback_trans R ltac:(rel2_side) o X); [|apply oback_fold_oi_upd; [rel2_side|rel2_side|ole2_side]]
+    | |- oback ?R ?o (RecordSet.set _ _ ?X) =>
+        apply (oback_trans R ltac:(rel2_side) o X); [|apply oback_eq; [rel2_side|reflexivity]]
+    end ].
+
+Lemma obs_step_back2 cs o th e : (forall i n, e <> ENewInst i n) -> oback oinst_le2 o (obs_step cs o (th, e)).
+Proof.
+  intros Hnew. unfold obs_step. eapply oback_trans; [rel2_side| |apply oback_refresh; rel2_side].
+  destruct e; try (exfalso; eapply Hnew; reflexivity); cbn [fst snd];
+  try (destruct (ev_inst o th _) eqn:Ev);
+  try match goal with |- context[match ?b with true => _ | false => _ end] => destruct b end;
+  unfold note_late_commit;
+  repeat match goal with |- context[if ?b then _ else _] => destruct b end;
+  try (apply oback_refl; rel2_side); oback_close2.
+Qed.
+
+Lemma dup_mono cs o e : w_dup (obs_step cs o e) = false -> w_dup o = false.
 Proof.
   pose proof (obs_step_flags_mono cs o e) as H. unfold flag_le, windows_of in H.
-  inversion H as [|? ? ? ? Hz H1]; subst. inversion H1 as [|? ? ? ? _ H2]; subst.
+  inversion H as [|? ? ? ? _ H1]; subst. inversion H1 as [|? ? ? ? _ H2]; subst.
   inversion H2 as [|? ? ? ? _ H3]; subst. inversion H3 as [|? ? ? ? _ H4]; subst.
   inversion H4 as [|? ? ? ? _ H5]; subst. inversion H5 as [|? ? ? ? Hd _]; subst.
-  intros A B. split.
-  - destruct (w_dup o); [rewrite Hd in A by reflexivity; discriminate|reflexivity].
-  - destruct (w_zombie o); [rewrite Hz in B by reflexivity; discriminate|reflexivity].
+  intros A. destruct (w_dup o); [rewrite Hd in A by reflexivity; discriminate|reflexivity].
 Qed.
 
 Lemma get_in_vals {A} k (v : A) m : get k m = Some v -> In v (vals m).
 Proof. intros H. apply get_in in H. unfold vals. apply in_map_iff. exists (k, v). auto. Qed.
 
-Lemma Rd_step cs o th e : (forall i n, e = ENewInst i n -> get i (oi o) = None) -> Rd o -> Rd (obs_step cs o (th, e)).
+Lemma Ro_step cs o th e : (forall i n, e = ENewInst i n -> get i (oi o) = None) -> Ro o -> Ro (obs_step cs o (th, e)).
 Proof.
-  intros Hnew HR Hd Hz. destruct (dupz_mono _ _ _ Hd Hz) as [Hd0 Hz0]. specialize (HR Hd0 Hz0).
+  intros Hnew [HR HE].
   assert (Hne : (forall i n, e <> ENewInst i n) \/ exists i n, e = ENewInst i n).
   { destruct e; try (left; intros; discriminate). right; eauto. }
   destruct Hne as [Hne|(i0 & n0 & ->)].
-  - pose proof (obs_step_back cs o th e Hne) as Hb.
-    intros i j xi' xj' Hij Hi Hj Hn.
-    destruct (Hb i xi' Hi) as (xi & Ei & Li). destruct (Hb j xj' Hj) as (xj & Ej & Lj).
-    destruct Li as (Li1 & Li2 & Li3 & _). destruct Lj as (Lj1 & Lj2 & Lj3 & _).
-    destruct (HR i j xi xj Hij Ei Ej) as [[A B]|[A B]]; [congruence|left|right]; auto.
+  - pose proof (obs_step_back2 cs o th e Hne) as Hb. split.
+    + intros Hd i j xi' xj' Hij Hi Hj Hn. specialize (HR (dup_mono _ _ _ Hd)).
+      destruct (Hb i xi' Hi) as (xi & Ei & Li & _). destruct (Hb j xj' Hj) as (xj & Ej & Lj & _).
+      destruct Li as (Li1 & Li2 & _). destruct Lj as (Lj1 & Lj2 & _).
+      destruct (HR i j xi xj Hij Ei Ej) as [A|A]; [congruence|left|right]; auto.
+    + intros i xi' Hi. destruct (Hb i xi' Hi) as (xi & Ei & _ & L). apply L. apply (HE i xi Ei).
   - specialize (Hnew _ _ eq_refl).
     assert (Hex : forall (f : oinst -> bool) l x, existsb f l = false -> In x l -> f x = false).
     { intros f l x Hf Hin. destruct (f x) eqn:E; [|reflexivity]. rewrite <- Hf. symmetry. apply existsb_exists. eauto. }
-    assert (Hold : forall j xj, get j (oi o) = Some xj -> o_nm xj = n0 -> o_ended xj = true /\ o_gone xj = true).
-    { intros j xj Ej En. unfold obs_step in Hd, Hz. cbn in Hd, Hz.
-      apply orb_false_iff in Hd. destruct Hd as [_ Hd]. apply orb_false_iff in Hz. destruct Hz as [_ Hz].
-      pose proof (get_in_vals _ _ _ Ej) as Hin.
-      pose proof (Hex _ _ _ Hd Hin) as A. pose proof (Hex _ _ _ Hz Hin) as B. cbn in A, B.
-      rewrite En, N.eqb_refl in A, B. cbn in A, B. apply negb_false_iff in A. rewrite A in B. cbn in B.
-      apply negb_false_iff in B. auto. }
     assert (HRf : forall (c : bool) (x : oinst),
                   o_nm (if c then x <| o_succ := true |> else x) = o_nm x /\
                   o_ended (if c then x <| o_succ := true |> else x) = o_ended x /\
-                  o_gone (if c then x <| o_succ := true |> else x) = o_gone x).
+                  o_endst (if c then x <| o_succ := true |> else x) = o_endst x).
     { intros [] x; cbn; auto. }
-    intros i j xi' xj' Hij Hi Hj Hn. unfold obs_step in Hi, Hj. cbn [fst snd ev_inst] in Hi, Hj.
-    rewrite refresh_get in Hi, Hj. cbn [oi] in Hi, Hj. cbn in Hi, Hj. rewrite get_set in Hi, Hj.
-    destruct (N.eqb_spec i0 i) as [<-|Hi0]; destruct (N.eqb_spec i0 j) as [<-|Hj0]; try congruence.
-    + destruct (get j (oi o)) as [xj|] eqn:Ej; [|discriminate]. cbn in Hi, Hj. injection Hi as <-. injection Hj as <-.
-      right. match goal with |- context[if ?c then xj <| o_succ := true |> else xj] => destruct (HRf c xj) as (A & B & C) end.
-      rewrite B, C. apply (Hold j xj Ej). rewrite <- A, <- Hn. reflexivity.
-    + destruct (get i (oi o)) as [xi|] eqn:Ei; [|discriminate]. cbn in Hi, Hj. injection Hi as <-. injection Hj as <-.
-      left. match goal with |- context[if ?c then xi <| o_succ := true |> else xi] => destruct (HRf c xi) as (A & B & C) end.
-      rewrite B, C. apply (Hold i xi Ei). rewrite <- A, Hn. reflexivity.
-    + destruct (get i (oi o)) as [xi|] eqn:Ei; [|discriminate]. destruct (get j (oi o)) as [xj|] eqn:Ej; [|discriminate].
-      cbn in Hi, Hj. injection Hi as <-. injection Hj as <-.
-      match goal with |- context[if ?c then xi <| o_succ := true |> else xi] => destruct (HRf c xi) as (A1 & B1 & C1) end.
-      match goal with |- context[if ?c then xj <| o_succ := true |> else xj] => destruct (HRf c xj) as (A2 & B2 & C2) end.
-      rewrite B1, C1, B2, C2. apply (HR i j xi xj Hij Ei Ej). congruence.
+    assert (Hlook : forall j xj', get j (oi (obs_step cs o (th, ENewInst i0 n0))) = Some xj' ->
+              (j = i0 /\ o_nm xj' = n0 /\ o_ended xj' = false) \/
+              (j <> i0 /\ exists xj, get j (oi o) = Some xj /\ o_nm xj' = o_nm xj /\ o_ended xj' = o_ended xj /\ o_endst xj' = o_endst xj)).
+    { intros j xj' Hj. unfold obs_step in Hj. cbn [fst snd ev_inst] in Hj. rewrite refresh_get in Hj. cbn [oi] in Hj. cbn in Hj.
+      rewrite get_set in Hj. destruct (N.eqb_spec i0 j) as [<-|Hj0].
+      - left. cbn in Hj. injection Hj as <-. auto.
+      - right. split; [congruence|]. destruct (get j (oi o)) as [xj|] eqn:Ej; [|discriminate]. cbn in Hj. injection Hj as <-.
+        exists xj. split; [reflexivity|]. match goal with |- context[if ?c then xj <| o_succ := true |> else xj] => apply (HRf c xj) end. }
+    split.
+    + intros Hd i j xi' xj' Hij Hi Hj Hn.
+      assert (Hold : forall j xj, get j (oi o) = Some xj -> o_nm xj = n0 -> o_ended xj = true).
+      { intros k xk Ek En. unfold obs_step in Hd. cbn in Hd. apply orb_false_iff in Hd. destruct Hd as [_ Hd].
+        pose proof (Hex _ _ _ Hd (get_in_vals _ _ _ Ek)) as A. cbn in A. rewrite En, N.eqb_refl in A. cbn in A.
+        now apply negb_false_iff in A. }
+      destruct (Hlook i xi' Hi) as [(-> & Ni & _)|(Hi0 & xi & Ei & Ni & Edi & _)];
+      destruct (Hlook j xj' Hj) as [(-> & Nj & _)|(Hj0 & xj & Ej & Nj & Edj & _)]; try congruence.
+      * right. rewrite Edj. apply (Hold j xj Ej). congruence.
+      * left. rewrite Edi. apply (Hold i xi Ei). congruence.
+      * rewrite Edi, Edj. apply (HR (dup_mono _ _ _ Hd) i j xi xj Hij Ei Ej). congruence.
+    + intros i xi' Hi He. destruct (Hlook i xi' Hi) as [(-> & _ & Hf)|(Hi0 & xi & Ei & _ & Edi & Esi)]; [congruence|].
+      rewrite Esi. apply (HE i xi Ei). congruence.
 Qed.
+
+(* ---- model-side invariants about the creation stage ------------------------------------------------------------ *)
+(* Rg: a begun instance has left runProcess; so has an instance that was launched *)
+Record Rg (s : sys) : Prop := mkRg {
+  rg_th : forall th i, get th (thinst s) = Some i -> get i (stage s) = None /\ get i (insts s) <> None;
+  rg_la : forall i x, get i (insts s) = Some x -> 0 < launches x -> get i (stage s) = None
+}.
+(* Rz: an instance whose creation write is still ahead has no stop request and no onProcessEnd *)
+Definition Rz (s : sys) (o : obs) : Prop :=
+  forall i t, get i (stage s) = Some (t, 0) -> o_endst (oi_get o i) = None /\ o_stopreq (oi_get o i) = false.
+(* Rs: the instance a pending-stop is about to end is not in a launched pc (outside the windows) *)
+Definition Rs (s : sys) (o : obs) : Prop :=
+  forall th i x, spc (get_thread s th) = SPend i -> W3 o = false -> get i (insts s) = Some x -> launched_pc (pc x) = false.
 
 (* ---- backward frames of the model ---------------------------------------------------------------------- *)
 Definition vrel (s s' : sys) : Prop :=
@@ -615,8 +715,8 @@ Definition own_special (e : event) : bool :=
 Lemma opt_eqb_Z_eq a b : opt_eqb Z.eqb a b = true -> a = b.
 Proof. destruct a, b; cbn; try discriminate; auto. intros H. apply Z.eqb_eq in H. now subst. Qed.
 
-Lemma W4_W2 o : W4 o = false -> W2 o = false.
-Proof. unfold W4, W2. destruct (w_commit o), (w_sdlag o); cbn; auto. Qed.
+Lemma W3_W2 o : W3 o = false -> W2 o = false.
+Proof. unfold W3, W2. destruct (w_commit o), (w_sdlag o); cbn; auto. Qed.
 
 (* clause solver that normalises only the goal: the hypotheses (about the pre-state) are normalised once, before
    the record is split, by own_tac *)
@@ -641,7 +741,7 @@ Ltac own_tac HP H :=
   match goal with E : get ?th (thinst ?s) = Some ?i, E0 : get ?i (insts ?s) = Some ?x |- _ =>
     intros j9 x9 xo9 Hx9 Hxo9; unfold set_pc in Hx9; autorewrite with sup in Hx9; cbn [fst snd] in Hx9;
     destruct (N.eqb_spec i j9) as [<-|Hne];
-    [ rewrite E0 in Hx9; cbn in Hx9; injection Hx9 as <-; pose proof (HP _ _ _ E0 Hxo9) as HPx; p2_pre; destruct HPx as [Pcommit Pstop Pexited Palive Pcode Pdecided Prelaunch Pgaveup Prestarts Ppre Pfstopped Prunctx Pendst Pgone Pnostop Pstatus];
+    [ rewrite E0 in Hx9; cbn in Hx9; injection Hx9 as <-; pose proof (HP _ _ _ E0 Hxo9) as HPx; p2_pre; destruct HPx as [Pcommit Pstop Pexited Palive Pcode Pdecided Prelaunch Pgaveup Prestarts Ppre Pfstopped Prunctx Pendst Pgone Pnostop Pstatus Ps1 Pendst2];
       try match goal with E : pc _ = _ |- _ => rewrite E in * end; cbn in *; constructor
     | eapply P2_frame; [apply (HP j9 x9 xo9 Hx9 Hxo9)|apply ikeep_refl|apply okeep_refl|apply vrel_vkeep; vrel_tac|apply wkeep_refl] ]
   end;
@@ -654,7 +754,7 @@ Ltac okeep_use Ok :=
   destruct Ok as (O1 & O2 & O3 & O4 & O5 & O6); cbn in O1, O2, O3, O4, O5, O6.
 
 Ltac w_contra Wlem Et :=
-  let Hw := fresh in let Hs := fresh in intros Hw Hs; try apply W4_W2 in Hw; apply (Wlem _ _ _ Et) in Hw;
+  let Hw := fresh in let Hs := fresh in intros Hw Hs; try apply W3_W2 in Hw; apply (Wlem _ _ _ Et) in Hw;
   match goal with Exo : get ?i (oi ?o) = Some ?x |- _ => rewrite (oi_get_some _ _ _ Exo) in Hw end; cbn in *; congruence.
 
 (* combined step of model and observer for an event about instance i whose observer reaction has the common shape *)
@@ -665,7 +765,7 @@ Ltac comb_tac HP i E0 Hshape Hwk :=
   destruct (Hshape j9 xo9 Hxo9) as (xo & Exo & Ok);
   destruct (N.eqb_spec i j9) as [<-|Hne];
   [ rewrite ?E0 in Hx9; cbn in Hx9; injection Hx9 as <-; pose proof (HP _ _ _ E0 Exo) as HPx; p2_pre;
-    destruct HPx as [Pcommit Pstop Pexited Palive Pcode Pdecided Prelaunch Pgaveup Prestarts Ppre Pfstopped Prunctx Pendst Pgone Pnostop Pstatus];
+    destruct HPx as [Pcommit Pstop Pexited Palive Pcode Pdecided Prelaunch Pgaveup Prestarts Ppre Pfstopped Prunctx Pendst Pgone Pnostop Pstatus Ps1 Pendst2];
     okeep_use Ok; rewrite ?N.eqb_refl in *; try match goal with E : pc _ = _ |- _ => rewrite E in * end; cbn in *; constructor
   | eapply P2_frame; [apply (HP j9 x9 xo Hx9 Exo)|apply ikeep_refl|exact Ok|apply vrel_vkeep; vrel_tac|exact Hwk] ].
 
@@ -759,7 +859,7 @@ End CDefs.
 (* ================= status writes, onProcessEnd helpers (from RelC02d) ================= *)
 Lemma P2_frame2 s o x xo s' o' x' xo' :
   P2 s o x xo -> ikeep x x' -> okeep xo xo' -> restarts (vis_of s (nm x)) <= restarts (vis_of s' (nm x)) -> wkeep o o' ->
-  (W4 o' = false -> launched_pc (pc x) = true -> st (vis_of s' (nm x)) <> SPending) -> P2 s' o' x' xo'.
+  (W3 o' = false -> launched_pc (pc x) = true -> st (vis_of s' (nm x)) <> SPending) -> P2 s' o' x' xo'.
 Proof.
   intros [] (I1 & I2 & I3 & I4 & I5 & I6 & I7 & I8) (O1 & O2 & O3 & O4 & O5 & O6) V1 (Wa & Wb) Hst.
   constructor; unfold Pok, GaveUp in *; rewrite ?I1, ?I2, ?I3, ?I4, ?I5, ?I6, ?I7, ?I8, ?O1, ?O2, ?O3, ?O4, ?O5, ?O6; auto.
@@ -795,29 +895,28 @@ Proof.
 Qed.
 
 (* outside the dup/zombie windows a name has at most one instance that has not left *)
-Lemma other_launched_absurd s o i j x y : Rc cs s o -> Rd o -> P2all s o -> W4 o = false -> i <> j ->
+(* outside the dup window: an instance whose creation write is ahead has no launched sibling *)
+Lemma other_launched_absurd s o i j x y : Rc cs s o -> Ro o -> Rz s o -> P2all s o -> W3 o = false -> i <> j ->
   get i (insts s) = Some x -> get j (insts s) = Some y -> nm x = nm y ->
-  gone_pc (pc x) = false -> launched_pc (pc y) = true -> False.
+  (exists t, get i (stage s) = Some (t, 0)) -> launched_pc (pc y) = true -> False.
 Proof.
-  intros HRc HRd HP HW Hij Ex Ey Hn Hgx Hly.
+  intros HRc HRo HRz HP HW Hij Ex Ey Hn (t & Hst) Hly.
   destruct (rc_inst _ _ _ HRc _ _ Ex) as (xo & Exo & Nx & _). destruct (rc_inst _ _ _ HRc _ _ Ey) as (yo & Eyo & Ny & _).
-  assert (Hd : w_dup o = false /\ w_zombie o = false).
-  { unfold W4 in HW. destruct (w_commit o), (w_sdlag o), (w_dup o), (w_zombie o); try discriminate; auto. }
-  destruct Hd as [Hd Hz].
-  destruct (HRd Hd Hz i j xo yo Hij Exo Eyo) as [[_ G]|[_ G]]; [congruence| |].
-  - apply (p_gone _ _ _ _ (HP _ _ _ Ex Exo)) in G. congruence.
-  - apply (p_gone _ _ _ _ (HP _ _ _ Ey Eyo)) in G. destruct (pc y); discriminate.
+  assert (Hd : w_dup o = false) by (unfold W3 in HW; destruct (w_commit o), (w_sdlag o), (w_dup o); try discriminate; auto).
+  destruct (ro_pair _ HRo Hd i j xo yo Hij Exo Eyo) as [G|G]; [congruence| |].
+  - apply (ro_end _ HRo _ _ Exo) in G. destruct (HRz i t Hst) as [Z _]. rewrite (oi_get_some _ _ _ Exo) in Z. congruence.
+  - apply (ro_end _ HRo _ _ Eyo) in G. rewrite (p_endst2 _ _ _ _ (HP _ _ _ Ey Eyo) HW G) in Hly. discriminate.
 Qed.
 
 (* ---- status writes -------------------------------------------------------------------------------------- *)
 Lemma P2all_status_others s o s' o' i x n s0 :
-  Rc cs s o -> Rd o -> P2all s o -> wkeep o o' -> oback okeep o o' ->
-  get i (insts s) = Some x -> n = nm x -> (gone_pc (pc x) = false \/ s0 <> SPending) ->
+  Rc cs s o -> Ro o -> Rz s o -> P2all s o -> wkeep o o' -> oback okeep o o' ->
+  get i (insts s) = Some x -> n = nm x -> ((exists t, get i (stage s) = Some (t, 0)) \/ s0 <> SPending) ->
   (forall m, st (vis_of s' m) = if N.eqb n m then match get m (viss s) with Some _ => s0 | None => SPending end else st (vis_of s m)) ->
   (forall m, restarts (vis_of s' m) = restarts (vis_of s m)) ->
   forall j y y' yo', j <> i -> get j (insts s) = Some y -> ikeep y y' -> get j (oi o') = Some yo' -> P2 s' o' y' yo'.
 Proof.
-  intros HRc HRd HP Hwk Hk Ex -> Hor Hst Hres j y y' yo' Hji Ey Ik Eyo'.
+  intros HRc HRo HRz HP Hwk Hk Ex -> Hor Hst Hres j y y' yo' Hji Ey Ik Eyo'.
   destruct (Hk j yo' Eyo') as (yo & Eyo & Ok).
   eapply P2_frame2; [apply (HP _ _ _ Ey Eyo)|exact Ik|exact Ok|rewrite Hres; lia|exact Hwk|].
   intros Hw Hl. rewrite Hst. destruct (N.eqb_spec (nm x) (nm y)) as [En|En].
@@ -839,7 +938,7 @@ Ltac inst_i_tac HP Ex Hk i :=
   match goal with Hxo : get i (oi ?o') = Some ?xo' |- _ =>
     let xo := fresh "xo" in let Exo := fresh "Exo" in let Ok := fresh "Ok" in let HPx := fresh "HPx" in
     destruct (Hk i xo' Hxo) as (xo & Exo & Ok); pose proof (HP _ _ _ Ex Exo) as HPx;
-    destruct HPx as [Pcommit Pstop Pexited Palive Pcode Pdecided Prelaunch Pgaveup Prestarts Ppre Pfstopped Prunctx Pendst Pgone Pnostop Pstatus];
+    destruct HPx as [Pcommit Pstop Pexited Palive Pcode Pdecided Prelaunch Pgaveup Prestarts Ppre Pfstopped Prunctx Pendst Pgone Pnostop Pstatus Ps1 Pendst2];
     destruct Ok as (Oa & Ob & Oc & Od & Oe & Of); cbn in Oa, Ob, Oc, Od, Oe, Of; constructor;
     rewrite ?Oa, ?Ob, ?Oc, ?Od, ?Oe, ?Of
   end.
@@ -847,7 +946,7 @@ Ltac inst_i_tac HP Ex Hk i :=
 Ltac wk_intro Hwk :=
   match goal with
   | |- W2 _ = false -> _ => let Hw := fresh "Hw" in intros Hw; pose proof (proj1 Hwk Hw)
-  | |- W4 _ = false -> _ => let Hw := fresh "Hw" in intros Hw; pose proof (proj2 Hwk Hw); pose proof (proj1 Hwk (W4_W2 _ Hw))
+  | |- W3 _ = false -> _ => let Hw := fresh "Hw" in intros Hw; pose proof (proj2 Hwk Hw); pose proof (proj1 Hwk (W3_W2 _ Hw))
   | _ => idtac
   end.
 
@@ -863,7 +962,7 @@ Ltac comb_tac2 HP i E0 Hshape Hwk :=
   destruct (Hshape j9 xo9 Hxo9) as (xo & Exo & Ok);
   destruct (N.eqb_spec i j9) as [<-|Hne];
   [ rewrite ?E0 in Hx9; cbn in Hx9; injection Hx9 as <-; pose proof (HP _ _ _ E0 Exo) as HPx; p2_pre;
-    destruct HPx as [Pcommit Pstop Pexited Palive Pcode Pdecided Prelaunch Pgaveup Prestarts Ppre Pfstopped Prunctx Pendst Pgone Pnostop Pstatus];
+    destruct HPx as [Pcommit Pstop Pexited Palive Pcode Pdecided Prelaunch Pgaveup Prestarts Ppre Pfstopped Prunctx Pendst Pgone Pnostop Pstatus Ps1 Pendst2];
     destruct Ok as (Oa & Ob & Oc & Od & Oe & Of); rewrite ?N.eqb_refl in *; cbn in Oa, Ob, Oc, Od, Oe, Of;
     try match goal with E : pc _ = _ |- _ => rewrite E in * end; cbn in *; constructor;
     rewrite ?Oa, ?Ob, ?Oc, ?Od, ?Oe, ?Of
